@@ -125,30 +125,49 @@ namespace vs
             long long dt = now_ms() - t0;
             if (dt < 10000)
                 continue;
-            int cp = g_tr.last_point[0].load(std::memory_order_relaxed);
-            int waiting_workers = 0, first_waiting = -1;
-            for (int t = 1; t < NTHREADS; ++t)
-                if (g_tr.last_point[t].load(std::memory_order_relaxed) == fsv::pausejob_after_inc)
+            // Provably stuck (lost wake-up), as a predicate over the tracked state, sampled twice
+            // one second apart with identical results:
+            //  * the caller - the only thread that ever notifies - spins in wait();
+            //  * at least one worker passed "after ++m_paused_count" and not yet "after cv.wait",
+            //    and produced no event in between (it sits in the condition-variable wait);
+            //  * EVERY other worker is idle: its last event is a worker-loop iteration (no job
+            //    flag set), its exit, or nothing at all.  A worker that is anywhere else (running
+            //    a job, inside a pause job before the counter, returning from the wait, inside a
+            //    perturbation of the steering plan) may still hold the mutex or make progress:
+            //    then the state is merely slow and nothing is concluded.
+            auto sample = [&](unsigned long* seqs, int& waiting, int& first, bool& others_idle, int& caller_point)
+            {
+                waiting = 0;
+                first = -1;
+                others_idle = true;
+                caller_point = g_tr.last_point[0].load(std::memory_order_relaxed);
+                for (int t = 1; t < NTHREADS; ++t)
                 {
-                    ++waiting_workers;
-                    if (first_waiting < 0)
-                        first_waiting = t - 1;
+                    int lp = g_tr.last_point[t].load(std::memory_order_relaxed);
+                    seqs[t] = g_tr.last_seq[t].load(std::memory_order_relaxed);
+                    if (lp == fsv::pausejob_after_inc)
+                    {
+                        ++waiting;
+                        if (first < 0)
+                            first = t - 1;
+                    }
+                    else if (!(lp == 0 || lp == fsv::worker_loop || lp == fsv::worker_exit))
+                        others_idle = false;
                 }
-            bool caller_spins = cp == fsv::wait_spin || cp == fsv::pause_spin;
-            // provably stuck: the caller (the only thread that ever notifies) spins in wait()
-            // after its notify_all, while a worker with its job flag still set sits in cv.wait
-            // (wait() is only entered when every worker has been resumed: a worker that is still
-            // inside the condition-variable wait at that time has missed the notification)
-            bool stuck = cp == fsv::wait_spin && waiting_workers > 0;
-            // observe whether anything else than spin iterations still changes
-            unsigned long snap[NTHREADS];
-            for (int t = 1; t < NTHREADS; ++t)
-                snap[t] = g_tr.last_seq[t].load(std::memory_order_relaxed);
-            std::this_thread::sleep_for(std::chrono::milliseconds(500));
+            };
+            unsigned long seq1[NTHREADS], seq2[NTHREADS];
+            int waiting_workers = 0, first_waiting = -1, cp = 0, w2 = 0, f2 = -1, cp2 = 0;
+            bool idle1 = false, idle2 = false;
+            sample(seq1, waiting_workers, first_waiting, idle1, cp);
+            std::this_thread::sleep_for(std::chrono::milliseconds(1000));
+            sample(seq2, w2, f2, idle2, cp2);
             bool workers_silent = true;
             for (int t = 1; t < NTHREADS; ++t)
-                if (g_tr.last_point[t].load(std::memory_order_relaxed) == fsv::pausejob_after_inc && snap[t] != g_tr.last_seq[t].load(std::memory_order_relaxed))
+                if (g_tr.last_point[t].load(std::memory_order_relaxed) == fsv::pausejob_after_inc && seq1[t] != seq2[t])
                     workers_silent = false;
+            bool caller_spins = cp == fsv::wait_spin && cp2 == fsv::wait_spin;
+            bool stuck = caller_spins && waiting_workers > 0 && w2 == waiting_workers && f2 == first_waiting && idle1 && idle2
+                         && g_tr.call_started_ms.load(std::memory_order_relaxed) == t0;
             char buf[600];
             if (stuck && workers_silent && caller_spins)
             {
@@ -158,6 +177,12 @@ namespace vs
                                    dt, first_waiting, waiting_workers);
                 ssize_t w = write(2, buf, static_cast<size_t>(len));
                 (void) w;
+                for (int t = 0; t < NTHREADS; ++t)
+                    if (g_tr.last_point[t].load())
+                    {
+                        len = snprintf(buf, sizeof buf, "  %s %d last at %s (event %lu of %lu)\n", t == 0 ? "caller" : "worker", t == 0 ? 0 : t - 1, point_name(g_tr.last_point[t].load()), g_tr.last_seq[t].load(), g_tr.seq.load());
+                        w = write(2, buf, static_cast<size_t>(len));
+                    }
                 _exit(88);
             }
             if (dt > 40000)
